@@ -22,10 +22,27 @@ PROPS = {
         "technique": "Lean 4 invariant proof by induction over op sequences + regenerated facts + differential correspondence",
         "explanation": "Inv (Σ shares = total = module account; holders index = support) proved by induction over arbitrary fund/transfer histories for the write order extracted from the current source; model tied to the real keeper by differential op sequences; raw-store monitors evaluate the three equalities on the real code after every op.",
     },
+    "C09": {
+        "id": "C09",
+        "lean_modules": ["HaqqModel.Props.C09"],
+        "level": "proof",
+        "trusted_base": COMMON_TRUST + [
+            "modelled, not verified: sdk.Coins arithmetic (pointwise Add/Min/Sub/IsAllLTE/IsZero), int64 times as unbounded Int (no overflow checks exist in the Go code; generators stay below 2^62), bank SendCoins for the clawback transfer, the auth account store",
+        ],
+        "assumptions": [
+            "period lengths are non-negative (ValidateBasic demands >= 1, the defaults and the merge functions produce 0)",
+            "statements that depend on IsAllLTE/IsZero are for the denominations in use (d < M, M arbitrary)",
+            "equality with the step function is claimed strictly after the start time (at t = start the schedule reads zero)",
+        ],
+        "level_text": "Machine-checked proofs (Lean 4) that ReadSchedule is the monotone step function, that DisjunctPeriods is the union (sum at every instant, totals and end preserved), that ConjunctPeriods is the pointwise minimum, that addGrant merges exactly, that ComputeClawback takes exactly the unvested amount, keeps the vested amount under min(old lockup, vested) and leaves an account its own Validate() accepts, and that only the recorded funder can claw back or hand over; facts about the merge start argument, the funder comparisons and the Validate comparison are regenerated from the source on every run; the model is tied to the real functions by a differential run.",
+        "level_note": "Trusted: Lean kernel; go/ast extractor; correspondence harness; sdk.Coins semantics modelled pointwise; message-level keeper glue (account store, bank send) is covered by correspondence only.",
+        "technique": "Lean 4 proofs by functional induction over the merge loops + regenerated facts + differential correspondence",
+        "explanation": "Schedule algebra proved for all period lists, times and denominations; pure functions and account methods of x/vesting/types compared line by line with the compiled Lean driver; independent Go step-function monitors check union/min/clawback identities on the real code.",
+    },
 }
 
 # properties not (yet) claimed, each with a reason; entries disappear as checks are built
 NOT_APPLICABLE = {pid: "check not built yet in this session (planned: see DESIGN.md §5)" for pid in
-                  ["C01", "C02", "C03", "C04", "C05", "C06", "C07", "C08", "C09", "C10", "C11", "C13", "C14", "C15", "C16", "C17", "C18", "C19", "C20"]}
+                  ["C01", "C02", "C03", "C04", "C05", "C06", "C07", "C08", "C10", "C11", "C13", "C14", "C15", "C16", "C17", "C18", "C19", "C20"]}
 
 HOOK_COMMITS = []
